@@ -105,7 +105,12 @@ def cap_fields_of(prog, cq: str) -> list[str]:
     return [f for f in CAP_FIELDS if f in fields]
 
 
+_CTX = None
+
+
 def run(ctx) -> None:
+    global _CTX
+    _CTX = ctx
     r, prog = ctx.r, ctx.prog
     r.explanation = (
         "Non-interference mechanism of pipeline loading decided on the source: every sink call in scope is "
@@ -315,6 +320,8 @@ def _trusted_path_value(fi: FuncInfo, v: ast.AST, field: str) -> Optional[str]:
     """vars_allowed_paths may be derived from the caller-given source_path (from_yaml)."""
     if isinstance(v, ast.Constant) and v.value in (False, None):
         return None
+    if field == "vars_allowed_paths" and _CTX is not None and fi.qual == "sigma.processing.pipeline.ProcessingPipeline.from_yaml" and not from_yaml_outcomes(_CTX):
+        return None  # what from_yaml hands to from_dict is decided by interpreting it (caller's value, or the real directory of the file)
     if field == "vars_allowed_paths":
         names = {n.id for n in ast.walk(v) if isinstance(n, ast.Name)}
         params = set(fi.params())
@@ -323,6 +330,66 @@ def _trusted_path_value(fi: FuncInfo, v: ast.AST, field: str) -> Optional[str]:
             return None
         return "not derived from the caller's source_path through os.path.realpath"
     return "re-assignment of a capability parameter"
+
+
+def from_yaml_outcomes(ctx) -> list[str]:
+    """ProcessingPipeline.from_yaml interpreted (sa.tabulate, ClassProxy) with a recording from_dict, a stand-in yaml module and a
+    model of os.path: what from_dict receives for every combination of caller-given restriction, source path and opt-ins.
+    Returns the deviations from: capabilities exactly as the caller gave them; vars_allowed_paths as given, or — when the caller
+    gave none (None) and a source path — the one-element tuple (dirname(realpath(source_path)),), whatever the opt-ins say."""
+    import itertools
+    import types as _types
+    from ..tabulate import ClassProxy, call_method, Raised
+    if getattr(ctx, "_c16_from_yaml", None) is not None:
+        return ctx._c16_from_yaml
+    prog = ctx.prog
+    PP = "sigma.processing.pipeline.ProcessingPipeline"
+    path_mod = _types.SimpleNamespace(realpath=lambda p_: f"REAL({p_})", dirname=lambda p_: f"DIR({p_})", abspath=lambda p_: f"ABS({p_})",
+                                      normpath=lambda p_: f"NORM({p_})", join=lambda *a: "/".join(a), sep="/")
+    from .c06_keys import U
+
+    class _Doc(dict):
+        """the parsed document: has every key anybody asks for, each with a value that says where it came from"""
+        def __contains__(self, k): return True
+        def __getitem__(self, k): return f"FROM-DOCUMENT:{k}"
+        def get(self, k, d_=None): return f"FROM-DOCUMENT:{k}"
+        def pop(self, k, *d_): return f"FROM-DOCUMENT:{k}"
+        def __bool__(self): return True
+    the_doc = _Doc()
+
+    class _Yaml:
+        parser = _types.SimpleNamespace(ParserError=type("ParserError", (Exception,), {}))
+        YAMLError = type("YAMLError", (Exception,), {})
+        def __getattr__(self, k):
+            if k.startswith("__"):
+                raise AttributeError(k)
+            return (lambda *a, **kw: the_doc) if "load" in k else U("yaml." + k)
+    yaml_mod = _Yaml()
+    env = {"os": _types.SimpleNamespace(path=path_mod, sep="/"), "yaml": yaml_mod}
+    IK = {"max_steps": 6000}
+    bad: list[str] = []
+    for vap, sp, atv, aes in itertools.product((None, (), ("given",), ("a", "b")), (None, "dir/p.yml"), (False, True), (False, True)):
+        got: dict = {}
+        def from_dict(d_, *a, **k):
+            got["doc"], got["args"], got["kw"] = d_, a, k
+            return "PIPELINE"
+        klass = ClassProxy(prog, PP, env, interp_kwargs=IK, overrides={"from_dict": from_dict})
+        try:
+            ret = call_method(prog, PP, "from_yaml", klass, env, "TEXT", allow_template_vars=atv, vars_allowed_paths=vap, source_path=sp, allow_external_sources=aes, interp_kwargs=IK)
+        except Raised as ex:
+            bad.append(f"vars_allowed_paths={vap!r}, source_path={sp!r}: raises {ex}")
+            continue
+        want_vap = vap if (vap is not None or sp is None) else ("DIR(REAL(dir/p.yml))",)
+        kw = got.get("kw", {})
+        case = f"from_yaml(vars_allowed_paths={vap!r}, source_path={sp!r}, allow_template_vars={atv}, allow_external_sources={aes})"
+        if ret != "PIPELINE" or got.get("doc") is not the_doc:
+            bad.append(f"{case}: from_dict is not called with the parsed document ({got.get('doc')!r})")
+        elif kw.get("vars_allowed_paths", "<missing>") != want_vap:
+            bad.append(f"{case}: from_dict receives vars_allowed_paths={kw.get('vars_allowed_paths', '<missing>')!r} instead of {want_vap!r}")
+        elif kw.get("allow_template_vars", "<missing>") is not atv or kw.get("allow_external_sources", "<missing>") is not aes:
+            bad.append(f"{case}: from_dict receives allow_template_vars={kw.get('allow_template_vars', '<missing>')!r}, allow_external_sources={kw.get('allow_external_sources', '<missing>')!r}")
+    ctx._c16_from_yaml = bad
+    return bad
 
 
 def r2_capabilities(ctx) -> None:
@@ -523,19 +590,11 @@ def r2_capabilities(ctx) -> None:
     # the restriction is derived from the file location unconditionally: whether vars execution is allowed is decided much
     # later (argument *or* environment), so the derivation must not depend on the opt-in argument
     fy = prog.func("sigma.processing.pipeline.ProcessingPipeline.from_yaml")
-    der = [n for n in walk_no_nested(fy.node) if isinstance(n, ast.Assign) and unparse(n.targets[0]) == "vars_allowed_paths"]
-    if not der:
-        r.violation("C16.R2e", fy.qual, "vars_allowed_paths = (os.path.dirname(os.path.realpath(source_path)),)", "a pipeline loaded from a file no longer gets its own directory as the only place vars files may come from", fy.loc)
-    for n in der:
-        gs = atomic_guards(guards_at(prog, fy, n))
-        extra = [(g, p) for g, p in gs if (g, p) not in (("vars_allowed_paths is None", True), ("source_path is not None", True))]
-        loc = f"{fy.module.relpath}:{n.lineno}"
-        if extra:
-            r.violation("C16.R2e", fy.qual, f"derivation of vars_allowed_paths guarded by {extra[0][0]}", f"the base-directory restriction is only derived under {extra}: when vars execution is enabled another way (PYSIGMA_ALLOW_VARS_EXECUTION=1, the only opt-in through the resolver) no restriction exists and a pipeline file can execute a vars file anywhere on disk", loc)
-        elif "os.path.realpath(source_path)" in unparse(n.value) and "os.path.dirname" in unparse(n.value):
-            r.ok("C16.R2e", fy.qual, "vars_allowed_paths = (dirname(realpath(source_path)),) whenever the caller gave a source path and no explicit restriction", loc)
-        else:
-            r.violation("C16.R2e", fy.qual, stmt_head(n), "the derived restriction is not the real directory of the pipeline file", loc)
+    fy_bad = from_yaml_outcomes(ctx)
+    if fy_bad:
+        r.violation("C16.R2e", fy.qual, "vars_allowed_paths = (os.path.dirname(os.path.realpath(source_path)),)", f"a pipeline loaded from a file no longer gets its own real directory as the only place vars files may come from, whatever the opt-in arguments say: {fy_bad[0]} (+{len(fy_bad) - 1} more)", fy.loc)
+    else:
+        r.ok("C16.R2e", fy.qual, "vars_allowed_paths = (dirname(realpath(source_path)),) whenever the caller gave a source path and no explicit restriction, independent of the opt-in arguments (interpreted)", fy.loc)
     r.floor("C16.R2e", 6)
 
     # ---- R2c construction-from-document sites
@@ -1202,24 +1261,10 @@ def r4_paths(ctx) -> None:
         r.violation("C16.R4", fi.qual, f"containment: {bad[0]}", f"{len(bad)} of {len(cases)} interpreted cases deviate: realpath must be applied to the candidate and every base, containment is startswith(base + os.sep) or equality, and the SigmaSecurityError raise must dominate loading/executing the file", loc)
     # 4. from_yaml derives the allowed base from source_path
     fy = prog.func("sigma.processing.pipeline.ProcessingPipeline.from_yaml")
-    derived = False
-    for n in walk_no_nested(fy.node):
-        if isinstance(n, ast.If):
-            tt = unparse(n.test)
-            if "vars_allowed_paths is None" in tt and "source_path is not None" in tt:
-                for st in n.body:
-                    if isinstance(st, ast.Assign) and unparse(st.targets[0]) == "vars_allowed_paths":
-                        vtxt = unparse(st.value)
-                        if "os.path.dirname" in vtxt and "os.path.realpath(source_path)" in vtxt and isinstance(st.value, ast.Tuple):
-                            derived = True
-                            # must precede the from_dict call
-                            cfgy = cfg_of(fy)
-                            for c in (x for x in walk_no_nested(fy.node) if isinstance(x, ast.Call) and call_name(x).endswith("from_dict")):
-                                for nid in cfgy.node_of_expr(c, prog.parent):
-                                    if not cfgy.must_pass(nid, cfgy.nodes_of(n.test)):
-                                        derived = False
+    fy_bad = from_yaml_outcomes(ctx)
+    derived = not fy_bad
     if derived:
-        r.ok("C16.R4", fy.qual, "vars_allowed_paths := (dirname(realpath(source_path)),) when the caller gave none, before from_dict", fy.loc)
+        r.ok("C16.R4", fy.qual, "from_dict receives vars_allowed_paths = (dirname(realpath(source_path)),) when the caller gave none, the caller's value otherwise (from_yaml interpreted over 32 argument combinations)", fy.loc)
     else:
         r.violation("C16.R4", fy.qual, "derivation of vars_allowed_paths from source_path",
                     "from_yaml no longer derives the allowed base directory from the pipeline file's location before building the pipeline", fy.loc)
